@@ -268,7 +268,8 @@ def wide_problem(draw, tier, hp=False):
         # small explicit tree: every label is a leaf under the root
         labels = sorted({s["zone"] for s in case["streams"]})
         if all("/" not in l for l in labels):
-            case["zone_tree"] = {"name": "Site", "type": "Site", "children": [{"name": l, "type": "Process Zone", "children": None} for l in labels]}
+            # a leaf may itself be declared a site (a site without sub-zones, streams attached directly); children None or []
+            case["zone_tree"] = {"name": "Site", "type": "Site", "children": [{"name": l, "type": draw(st.sampled_from(["Process Zone", "Process Zone", "Site"])), "children": draw(st.sampled_from([None, None, []]))} for l in labels]}
     return case
 
 
